@@ -105,6 +105,15 @@ func checkBigZone(p *Program, r *Report, rule string) {
 				return true
 			}
 		}
+		// (c) counter + a non-negative offset: "innerI := c.bigCnt + int32(i)" with i the index of a range
+		// over the tail list[bigCnt:]
+		if bo, ok := idx.(*ssa.BinOp); ok && bo.Op == token.ADD {
+			for _, pr := range [][2]ssa.Value{{bo.X, bo.Y}, {bo.Y, bo.X}} {
+				if isBigLoad(pr[0]) && loopIndexNonNeg(strip(pr[1]), 0) {
+					return true
+				}
+			}
+		}
 		// (a) loop variable: phi(start, phi+positive)
 		if ph, ok := idx.(*ssa.Phi); ok {
 			okAll := true
@@ -185,4 +194,57 @@ func checkBigZone(p *Program, r *Report, rule string) {
 	if n == 0 {
 		r.Note("%s: the builder performs no in-place rewrite of node sizes or bitmaps", rule)
 	}
+}
+
+// loopIndexNonNeg: v is a non-negative loop index: a constant >= 0, a phi over non-negative starts and
+// "itself + positive constant", or the index of a range loop (phi(-1, next) + 1).
+func loopIndexNonNeg(v ssa.Value, d int) bool {
+	if d > 4 || v == nil {
+		return false
+	}
+	switch x := v.(type) {
+	case *ssa.Const:
+		k, ok := constInt(x)
+		return ok && k >= 0
+	case *ssa.Convert:
+		return loopIndexNonNeg(x.X, d+1)
+	case *ssa.BinOp:
+		if x.Op != token.ADD {
+			return false
+		}
+		k, isK := constInt(x.Y)
+		if !isK || k < 0 {
+			return false
+		}
+		if ph, ok := x.X.(*ssa.Phi); ok {
+			// range index: phi(-1, this)
+			okAll := true
+			for _, ed := range ph.Edges {
+				if ed == ssa.Value(x) {
+					continue
+				}
+				if c, ok := constInt(ed); !ok || c+k < 0 {
+					okAll = false
+				}
+			}
+			if okAll {
+				return true
+			}
+		}
+		return loopIndexNonNeg(x.X, d+1)
+	case *ssa.Phi:
+		for _, ed := range x.Edges {
+			if bo, ok := ed.(*ssa.BinOp); ok && bo.Op == token.ADD && bo.X == ssa.Value(x) {
+				if k, isK := constInt(bo.Y); isK && k > 0 {
+					continue
+				}
+				return false
+			}
+			if !loopIndexNonNeg(ed, d+1) {
+				return false
+			}
+		}
+		return true
+	}
+	return false
 }
